@@ -167,3 +167,42 @@ def gen_deliveries(rng, n, L, S, block, max_deliveries=64):
         return [[int(k), "swapped"] for k in out]  # a whole stream in the non-native byte order
     return [[int(k), "strided" if rng.random() < ps else ("scratch" if rng.random() < pr else
                                                            ("copy" if rng.random() < pm else "ro"))] for k in out]
+
+
+class CoTenant(object):
+    """Another live computer in the same process (one computer per channel / per stream is ordinary use), stepped between
+    the calls made on the computer under observation according to its own seeded schedule and fed its own data. Its
+    results are not judged; it only has to leave the observed computer alone."""
+
+    def __init__(self, comp, seed, frame_length, dtype):
+        import random
+
+        self.comp = comp
+        self.r = random.Random(int(seed))
+        self.g = np.random.default_rng(int(seed))
+        self.L = max(1, int(frame_length))
+        self.dtype = dtype
+        self.calls = 0
+
+    def step(self):
+        """0-2 calls on the co-tenant; returns how many were made."""
+        made = 0
+        for _ in range(self.r.choice((0, 1, 1, 2))):
+            q = self.r.random()
+            try:
+                if q < 0.75:
+                    ln = self.r.choice((0, 1, self.r.randrange(1, 2 * self.L + 2), self.r.randrange(1, 2 * self.L + 2)))
+                    dt = self.dtype if self.r.random() < 0.8 else ("float32" if self.dtype == "float64" else "float64")
+                    if self.comp.started:
+                        dt = self._dt
+                    self._dt = dt
+                    self.comp.compute_chunk((self.g.standard_normal(ln) * 3.0).astype(dt))
+                elif q < 0.9:
+                    self.comp.finalize()
+                elif not self.comp.started:
+                    self.comp.compute_full((self.g.standard_normal(self.r.randrange(0, 3 * self.L)) * 0.5).astype(self.dtype))
+            except Exception:
+                pass
+            made += 1
+        self.calls += made
+        return made
